@@ -1,0 +1,100 @@
+//go:build verif
+
+// Verification hook (property check C08 of /verif, engine "scmp"): exports computeProcID and the
+// packet intake of the three udpip link kinds, plus the internal link's processing of a buffer that
+// is not a SCION packet (STUN branch). Additive only; compiles away without the `verif` tag.
+
+package udpip
+
+import (
+	"net"
+
+	"github.com/scionproto/scion/router"
+)
+
+// VerifScmpComputeProcID exports computeProcID.
+func VerifScmpComputeProcID(data []byte, numProcRoutines int, hashSeed uint32) (uint32, bool) {
+	return computeProcID(data, numProcRoutines, hashSeed)
+}
+
+// VerifScmpLinkKind names the implementation of a link: "internal", "connected", "detached".
+func VerifScmpLinkKind(l router.Link) string {
+	switch l.(type) {
+	case *internalLink:
+		return "internal"
+	case *connectedLink:
+		return "connected"
+	case *detachedLink:
+		return "detached"
+	}
+	return "other"
+}
+
+// VerifScmpLinkSeed returns the hash seed the link uses for computeProcID.
+func VerifScmpLinkSeed(l router.Link) uint32 {
+	switch v := l.(type) {
+	case *internalLink:
+		return v.seed
+	case *connectedLink:
+		return v.seed
+	case *detachedLink:
+		return v.seed
+	}
+	return 0
+}
+
+// VerifScmpIntake runs the link's receive method (what udpConnection.receive calls for every
+// datagram) on a packet whose RawPacket already holds the received bytes, with nproc fresh
+// processor queues. It reports where the packet went:
+//
+//	proc >= 0, other == false: queued for the fast-path processor number proc
+//	proc == -1, other == true:  queued for the internal link's own processor (non-SCION traffic)
+//	proc == -1, other == false: returned to the pool (dropped)
+func VerifScmpIntake(
+	l router.Link, nproc int, pool router.PacketPool, p *router.Packet, src *net.UDPAddr,
+) (proc int, other bool) {
+	qs := make([]chan *router.Packet, nproc)
+	for i := range qs {
+		qs[i] = make(chan *router.Packet, 1)
+	}
+	var otherQ chan *router.Packet
+	switch v := l.(type) {
+	case *internalLink:
+		otherQ = make(chan *router.Packet, 1)
+		v.procQs, v.procQ, v.pool = qs, otherQ, pool
+		v.receive(len(p.RawPacket), src, p)
+	case *connectedLink:
+		v.procQs, v.pool = qs, pool
+		v.receive(len(p.RawPacket), src, p)
+	case *detachedLink:
+		v.procQs, v.pool = qs, pool
+		v.receive(len(p.RawPacket), src, p)
+	default:
+		panic("VerifScmpIntake: unknown link implementation")
+	}
+	for i, q := range qs {
+		select {
+		case got := <-q:
+			if got != p {
+				panic("VerifScmpIntake: foreign packet in queue")
+			}
+			return i, false
+		default:
+		}
+	}
+	if otherQ != nil {
+		select {
+		case <-otherQ:
+			return -1, true
+		default:
+		}
+	}
+	return -1, false
+}
+
+// VerifScmpInternalProcess is internalLink.processPacket (the body of the internal link's
+// processor loop). reply is true when the packet is to be sent back on p.Link afterwards.
+func VerifScmpInternalProcess(l router.Link, p *router.Packet) (reply bool, err error) {
+	err = l.(*internalLink).processPacket(p)
+	return err == nil && p.Link != nil, err
+}
